@@ -323,3 +323,22 @@ PROPS['C05'] = dict(
     trusted_base=EG_TRUST + ['ematch_impl/ematch_node/multi_ematch are not modelled; only their results are judged'],
     assumptions=COMMON_ASSUME,
 )
+
+PROPS['C04'] = dict(
+    level='translation_validation',
+    module='SlotVerif.Props.C04',
+    suites=[dict(name='plant', variant='default', shrink=False, quick=dict(count=1500, timeout=900), thorough=dict(count=40000, timeout=3000)),
+            dict(name='plant', variant='checks', shrink=False, quick=dict(count=400, timeout=900), thorough=dict(count=8000, timeout=3000))],
+    rule='corr.match.complete: the harness PLANTS instances: a random term (every bound name bound once, binder names apart from free '
+         'names), a left pattern abstracted from it (random subterms become pattern variables, identical subterms share one; subterms '
+         'under binders included; all slots renamed injectively to pattern slot names), a right pattern over the same variables '
+         '(h(lhs), k(?v, h(?w)) or k(lhs, ?v)) whose instance has the same free slots. In 3/4 of the plants the instance is never '
+         'inserted literally: a subterm u is replaced by a different term w with the same free slots, u and w are inserted and unioned '
+         '(present only up to equality); in 1/4 a child class is made symmetric. Plants on which some class has a redundant slot are '
+         'discarded (scope of the property) and counted. Then: the Lean checker must accept the planted substitution for the left '
+         'pattern on the dumped state; one apply_rewrites of the rule; the right instance must be found by lookup_rec_expr and be eq to '
+         'the left instance, and the Lean checker must accept the substitution for the right pattern on the new dump. '
+         'non-trivial = the instance is present only up to equality; distinct = by hash of the case line',
+    trusted_base=EG_TRUST + ['the harness-side construction of the expected right instance (pattern instantiation and slot renaming) '],
+    assumptions=COMMON_ASSUME + ['scope as stated in the property: no class with a redundant slot, bound names bound once and not used free'],
+)
